@@ -32,15 +32,14 @@ fn filter_execute<const FOREIGN: bool>() {
             assert!(!FOREIGN, "a context of another scheme must be refused");
             assert!(b == answer, "the result is the root expression's result");
             assert!(runs() == before + 1, "evaluated exactly once");
-            kani::cover!(b);
-            kani::cover!(!b);
         }
         Err(SchemeMismatchError) => {
             assert!(FOREIGN, "a context of the filter's own scheme must be accepted");
             assert!(runs() == before, "scheme mismatch is never an evaluation");
-            kani::cover!(true);
         }
     }
+    kani::cover!(answer, "root expression answers true");
+    kani::cover!(!answer, "root expression answers false");
     std::mem::forget(ctx);
     std::mem::forget(filter);
     std::mem::forget((s1, s2));
@@ -79,11 +78,9 @@ fn filter_value_execute<const FOREIGN: bool>() {
             match v {
                 Ok(LhsValue::Int(y)) => {
                     assert!(!absent && *y == x, "the result is the root expression's result");
-                    kani::cover!(true);
                 }
                 Err(t) => {
                     assert!(absent && *t == Type::Int);
-                    kani::cover!(true);
                 }
                 _ => {
                     assert!(false);
@@ -93,9 +90,10 @@ fn filter_value_execute<const FOREIGN: bool>() {
         Err(SchemeMismatchError) => {
             assert!(FOREIGN, "a context of the expression's own scheme must be accepted");
             assert!(runs() == before, "scheme mismatch is never an evaluation");
-            kani::cover!(true);
         }
     }
+    kani::cover!(absent, "root expression yields no value");
+    kani::cover!(!absent, "root expression yields a value");
     std::mem::forget(r);
     std::mem::forget(ctx);
     std::mem::forget(fv);
